@@ -65,9 +65,14 @@ Section Norm.
 
   Definition len32 (s : bytes) : bool := Nlen s <? 4294967296.
 
-  (* string, unicode: text *)
-  Definition norm_text (s : bytes) : option tval :=
-    if (1 <=? e_proto c)%Z && len32 s then Some (TStr s) else None.
+  (* text written with a unicode opcode (binary forms; the protocol-0 V form is not covered) *)
+  Definition uni_fits (s : bytes) : bool := (1 <=? e_proto c)%Z && len32 s.
+  (* text written with a Python-2 str opcode: binary forms, or at protocol 0 S + pyquote *)
+  Definition bstr_fits (s : bytes) : bool := if (1 <=? e_proto c)%Z then len32 s else true.
+  (* a Go string: unicode under StrictUnicode or protocol >= 3, Python-2 str otherwise *)
+  Definition str_fits (s : bytes) : bool :=
+    if e_strict c || (3 <=? e_proto c)%Z then uni_fits s else bstr_fits s.
+  Definition bstr_t (s : bytes) : tval := if e_strict c then TBStr s else TStr s.
 
   Definition class_ok (m n : bytes) : bool :=
     if (4 <=? e_proto c)%Z then len32 m && len32 n else negb (has_lf m || has_lf n).
@@ -90,9 +95,9 @@ Section Norm.
     | RInt z => if in_int64 z then Some (TInt z) else None
     | RUint z => if (0 <=? z)%Z then Some (if (z <=? int64_max)%Z then TInt z else TBig z) else None
     | RFloat f => if (1 <=? e_proto c)%Z && (f <? 2 ^ 64) then Some (TFloat f) else None
-    | RStr SPlain s | RStr SNamed s | RStr SUnicode s => norm_text s
-    | RStr SByteString s =>
-        if (1 <=? e_proto c)%Z && len32 s then Some (if e_strict c then TBStr s else TStr s) else None
+    | RStr SPlain s | RStr SNamed s => if str_fits s then Some (TStr s) else None
+    | RStr SUnicode s => if uni_fits s then Some (TStr s) else None
+    | RStr SByteString s => if bstr_fits s then Some (bstr_t s) else None
     | RStr SBytes s => if bytes_ok s then Some (TBytes s) else None
     | RByteSeq s => if barr_ok s then Some (TBArr s) else None
     | RTuple l => option_map TTuple (map_opt norm l)
@@ -141,8 +146,8 @@ Fixpoint fits (c : econfig) (t : tval) : bool :=
   | TNone | TBool _ | TBig _ => true
   | TInt z => in_int64 z
   | TFloat f => (1 <=? e_proto c)%Z && (f <? 2 ^ 64)
-  | TStr s => (1 <=? e_proto c)%Z && len32 s
-  | TBStr s => (1 <=? e_proto c)%Z && len32 s && e_strict c
+  | TStr s => str_fits c s
+  | TBStr s => bstr_fits c s && e_strict c
   | TBytes s => bytes_ok c s
   | TBArr s => barr_ok c s
   | TList l => forallb (fits c) l
@@ -158,8 +163,8 @@ Fixpoint fits_proto (c : econfig) (t : tval) : bool :=
   match t with
   | TNone | TBool _ | TBig _ | TInt _ => true
   | TFloat f => (1 <=? e_proto c)%Z && (f <? 2 ^ 64)
-  | TStr s => (1 <=? e_proto c)%Z && len32 s
-  | TBStr s => (1 <=? e_proto c)%Z && len32 s
+  | TStr s => str_fits c s
+  | TBStr s => bstr_fits c s
   | TBytes s => bytes_ok c s
   | TBArr s => barr_ok c s
   | TList l => forallb (fits_proto c) l
